@@ -88,7 +88,8 @@ DRound(X, vec, d, z, payloadOk, wellFormed, complete, anyErr, outside, limit, nr
     /\ \A c \in Idx : vec[c] = 1 => d[c] \/ valid[c] = 1                         \* valid => verified bytes on disk
     /\ wellFormed =>
          LET bad == { k \in 1..Len(X) : ~payloadOk[k] } IN
-         IF bad = {} THEN complete => (\A k \in 1..Len(X) : vec[X[k]] = 1 /\ d[X[k]]) /\ ~anyErr
+         IF bad = {} THEN /\ complete /\ ~anyErr                                   \* a well-formed response with good payloads is accepted to the end
+                          /\ \A k \in 1..Len(X) : vec[X[k]] = 1 /\ d[X[k]]
          ELSE LET fb == CHOOSE k \in bad : \A j \in bad : k <= j IN
               /\ \A k \in 1..(fb - 1) : vec[X[k]] = 1 /\ d[X[k]]
               /\ vec[X[fb]] = 0 - 1 /\ z[X[fb]] /\ anyErr                          \* zero-filled, failed, reported
